@@ -682,11 +682,11 @@ func init() {
 		NotCov:      "recipient/epoch binding of the signed bytes (a protocol-design fact: the signature covers neither), Ed25519 soundness.",
 		Assumptions: commonAssumptions})
 	register(&Def{ID: "C20", Run: c20,
-		Explain:     "Decides on SSA: the relay stores a message for delivery only in the send handler, on paths where (R1) ExtractAndVerify succeeded, the verified sender equals the identity s.ident(ctx) of the submitting stream, the epoch check returned (true,nil) for the message's epoch, this call is still the registered peer, the partner is attached, and the slot written is the partner's with the verified message; the epoch check returns true only as (stored epoch == message epoch) and errors on future epochs; registration happens only past a well-formed init (identity ok, epoch 0, parsable non-empty destination != self); the request switch covers exactly Validate's bodies; all tracker state is touched only under Server.mtx (LOCKSET).",
+		Explain:     "Decides on SSA: the relay stores a message for delivery only in the send handler, on paths where (R1) ExtractAndVerify succeeded, the verified sender equals the identity s.ident(ctx) of the submitting stream, the epoch check returned (true,nil) for the message's epoch, this call is still the registered peer, the partner is attached, and the slot written is the partner's with the verified message; the epoch check returns true only as (stored epoch == message epoch) and errors on future epochs; registration happens only past a well-formed init (identity ok, epoch 0, parsable non-empty destination != self); the request switch covers exactly Validate's bodies; all tracker state is touched only under Server.mtx (LOCKSET). (MUSTCALL) every critical section of the relay that changes a peer slot bumps the epoch, wakes the waiters and clears the partner's pending delivery, so a message queued in an older epoch does not survive into the next.",
 		NotCov:      "end-to-end history statements; the verifier itself is C01.",
 		Assumptions: commonAssumptions})
 	register(&Def{ID: "C21", Run: c21,
-		Explain:     "Decides on SSA: every store made by the four ack/clear handlers is dominated by equality of the named seqno with the stored message's seqno (server: *recvSent==ack → partner.outAcked, recv.Seqno==clear → drop, *recvSent==clear → partner.recvClear, each also behind current-epoch / still-registered / partner-attached; client: out.Seqno==ack, recv.Seqno==clear); the client schedules an AckMsg only for a message whose recvProcessed is true, which only ClientPeerRef.Recv sets; outAcked/recvClear are set only by their handlers (WHO); server state only under Server.mtx and client tracker state only under its broadcast lock (LOCKSET).",
+		Explain:     "Decides on SSA: every store made by the four ack/clear handlers is dominated by equality of the named seqno with the stored message's seqno (server: *recvSent==ack → partner.outAcked, recv.Seqno==clear → drop, *recvSent==clear → partner.recvClear, each also behind current-epoch / still-registered / partner-attached; client: out.Seqno==ack, recv.Seqno==clear); the client schedules an AckMsg only for a message whose recvProcessed is true, which only ClientPeerRef.Recv sets; outAcked/recvClear are set only by their handlers (WHO); server state only under Server.mtx and client tracker state only under its broadcast lock (LOCKSET). (MUSTCALL) the client's open handler discards the previous epoch's inbox and transmit flags in the critical section that records the new epoch.",
 		NotCov:      "the end-to-end history statement (ack observed ⇒ partner received) — needs a model of both sides and the transport.",
 		Assumptions: commonAssumptions})
 }
